@@ -237,6 +237,7 @@ class NativeVC:
 
         from contracts import looplib
 
+        self._loop = loop
         saved = (asyncio.get_event_loop, asyncio.get_running_loop, asyncio.create_task, asyncio.Event)
         asyncio.get_event_loop = lambda: loop
         asyncio.get_running_loop = lambda: loop
@@ -244,6 +245,61 @@ class NativeVC:
         asyncio.Event = looplib.Event
         self._cleanups.append(lambda: [setattr(asyncio, n, v) for n, v in zip(("get_event_loop", "get_running_loop", "create_task", "Event"), saved)])
         return loop
+
+    def drive(self, coro, log, on_sleep=None, cancellable=False):
+        """native twin of vc.drive: steps the real coroutine; asyncio.sleep / gather are
+        replaced by awaitables that hand control to this driver"""
+        import asyncio
+
+        class _Sleep:
+            def __init__(self, d):
+                self.d = d
+
+            def __await__(self):
+                yield self
+
+        async def _gather(*aws, return_exceptions=False):
+            out = []
+            for a in aws:
+                try:
+                    out.append(await a)
+                except Exception as exc:  # noqa: BLE001
+                    if not return_exceptions:
+                        raise
+                    out.append(exc)
+            return out
+
+        saved = (asyncio.sleep, asyncio.gather)
+        asyncio.sleep = lambda d, *a, **k: _Sleep(d)
+        asyncio.gather = _gather
+        cancel_at = self.model.get("cancel_at", -1) if cancellable else -1
+        loop = getattr(self, "_loop", None)
+        k = 0
+        pending_exc = None
+        try:
+            while True:
+                try:
+                    req = coro.throw(pending_exc) if pending_exc is not None else coro.send(None)
+                except StopIteration as stop:
+                    return stop.value
+                pending_exc = None
+                if not isinstance(req, _Sleep):
+                    raise ReplayInvalid(f"coroutine awaited something the driver does not model: {req!r}")
+                if k == cancel_at:
+                    log.append(("cancel",))
+                    pending_exc = asyncio.CancelledError()
+                else:
+                    log.append(("sleep", req.d))
+                    if loop is not None:
+                        loop.now = loop.now + req.d
+                    if on_sleep is not None:
+                        on_sleep(k, req.d)
+                k += 1
+                if k > 40:
+                    raise ReplayInvalid("coroutine did not finish within 40 sleeps (pick a cancel_at)")
+        finally:
+            asyncio.sleep, asyncio.gather = saved
+            coro.close()
 
     def cleanup(self):
         for c in reversed(self._cleanups):
@@ -423,6 +479,11 @@ class GenVC(NativeVC):
     def _rec(self, name, v):
         self.model[name] = v
         return v
+
+    def drive(self, coro, log, on_sleep=None, cancellable=False):
+        if cancellable and "cancel_at" not in self.model:
+            self.model["cancel_at"] = self.rng.choice([0, 1, 2, 3, 4, 5, 6, 7])
+        return NativeVC.drive(self, coro, log, on_sleep, cancellable)
 
     def int(self, name, lo=None, hi=None):
         r = self.rng
